@@ -7,6 +7,9 @@ import json
 from . import core
 
 ALL = [f"C{i:02d}" for i in range(1, 21)]
+# properties whose check has been reviewed by the lead and passes on the unchanged tree; a module that exists
+# but is not listed here is work in progress and is reported under not_applicable with that reason
+READY = {"C01", "C02", "C03", "C05", "C06", "C07", "C08", "C11", "C12", "C13", "C14", "C15", "C16", "C18", "C19", "C20"}
 
 DEFAULT_NOTE = ("Theorems are about the Gallina model; the model is tied to /repo by the correspondence run "
                 "(Coq evaluates model-vs-implementation agreement and the property predicate on the "
@@ -25,6 +28,10 @@ def write() -> None:
                        "reason": f"check not built yet in this state of /verif (planned, DESIGN.md §3.{pid}); nothing is claimed"})
             continue
         meta = getattr(mod, "META", None)
+        if pid not in READY:
+            na.append({"property_id": pid,
+                       "reason": f"check under construction in this state of /verif (DESIGN.md §3.{pid}); nothing is claimed yet"})
+            continue
         if not meta or meta.get("not_applicable"):
             na.append({"property_id": pid, "reason": (meta or {}).get("not_applicable", "module without META")})
             continue
